@@ -30,6 +30,7 @@ func runC15(c *Ctx) {
 	c15Wire(c, "C15.wire")
 	c15Async(c)
 	c15Commit(c)
+	c15AtomicDecide(c)
 	// the per-type functions cached on the shared *Schema keep no scratch of their own
 	runReentrantRule(c, "C15.reentrant", func(fn *ssa.Function) bool { return inModule(fn) }, nil, 60)
 }
@@ -86,13 +87,26 @@ func c15Globals(c *Ctx) {
 			continue
 		}
 		locked := map[string]bool{}
+		lockCalls := map[string][]ssa.Instruction{}
 		allCalls(fn, false, func(_ *ssa.Function, call ssa.CallInstruction) {
 			if n := calleeName(call); n == "sync.(*Mutex).Lock" || n == "sync.(*RWMutex).Lock" || n == "sync.(*RWMutex).RLock" {
 				if g := globalOf(call.Common().Args[0]); g != nil {
 					locked[g.Name()] = true
+					if ins, ok := call.(ssa.Instruction); ok {
+						lockCalls[g.Name()] = append(lockCalls[g.Name()], ins)
+					}
 				}
 			}
 		})
+		// held: the lock was taken on every path to the access
+		held := func(lock string, at ssa.Instruction) bool {
+			for _, l := range lockCalls[lock] {
+				if dominates(l, at) {
+					return true
+				}
+			}
+			return false
+		}
 		allInstrs(fn, false, func(_ *ssa.Function, ins ssa.Instruction) {
 			var addr ssa.Value
 			write := false
@@ -107,7 +121,7 @@ func c15Globals(c *Ctx) {
 				if x.Op == token.MUL {
 					if g, ok := x.X.(*ssa.Global); ok && isModuleGlobal(g) {
 						if gd, isG := guarded[g.Name()]; isG && gd.how == "mutex" {
-							c.Check(rule, FuncKey(fn)+" reads "+g.Name()+" under "+gd.lock, x.Pos(), locked[gd.lock], g.Name()+" is accessed without holding "+gd.lock+": concurrent OpenFile/readers race on the map")
+							c.Check(rule, FuncKey(fn)+" reads "+g.Name()+" under "+gd.lock, x.Pos(), locked[gd.lock] && held(gd.lock, x), g.Name()+" is accessed on a path where "+gd.lock+" has not been taken yet: concurrent OpenFile/readers race on the map (the runtime aborts with concurrent map read and map write)")
 						}
 					}
 				}
@@ -124,7 +138,7 @@ func c15Globals(c *Ctx) {
 			case !ok:
 				c.Fail(rule, key, ins.Pos(), "package-level variable %s is written outside package initialisation by %s: every goroutine using the library shares it, and nothing synchronises the write", g.Name(), FuncKey(fn))
 			case gd.how == "mutex":
-				c.Check(rule, key, ins.Pos(), locked[gd.lock], g.Name()+" is written without holding "+gd.lock)
+				c.Check(rule, key, ins.Pos(), locked[gd.lock] && held(gd.lock, ins), g.Name()+" is written without holding "+gd.lock)
 			case gd.how == "once":
 				// the writing function is a closure passed to sync.Once.Do
 				inOnce := false
@@ -495,4 +509,58 @@ func c15Commit(c *Ctx) {
 	}
 	c.Stats[rule+".methods"] = n
 	c.Min(rule, 20)
+}
+
+// c15AtomicDecide: a decision about a shared counter is taken on the value
+// the atomic update returned. A function that updates an atomic field (Add,
+// Swap, CompareAndSwap) and then reads it again with Load to decide what to do
+// lets two goroutines both observe the final value: both release the same
+// buffer to the pool. Per function and atomic field: no Load of a field the
+// function also updates.
+func c15AtomicDecide(c *Ctx) {
+	rule := "C15.atomic"
+	p := c.P
+	n := 0
+	for _, fn := range p.ModuleSSAFuncs() {
+		if fn.Origin() != nil || fn.Blocks == nil {
+			continue
+		}
+		type use struct {
+			pos token.Pos
+		}
+		updates := map[*types.Var]token.Pos{}
+		loads := map[*types.Var]token.Pos{}
+		allCalls(fn, true, func(_ *ssa.Function, call ssa.CallInstruction) {
+			cc := call.Common()
+			sc := cc.StaticCallee()
+			if sc == nil || sc.Signature.Recv() == nil || fnPkg(sc) == nil || fnPkg(sc).Path() != "sync/atomic" || len(cc.Args) == 0 {
+				return
+			}
+			fs, _, elem := fieldChain(cc.Args[0])
+			if len(fs) == 0 || elem {
+				return
+			}
+			f := fs[len(fs)-1]
+			switch fnName(sc) {
+			case "Add", "And", "Or": // arithmetic updates of a counter; CompareAndSwap(nil, v) followed by Load is the set-once idiom
+				updates[f] = call.Pos()
+			case "Load":
+				loads[f] = call.Pos()
+			}
+		})
+		if len(updates) == 0 {
+			continue
+		}
+		var bad []string
+		for f := range updates {
+			n++
+			if pos, ok := loads[f]; ok {
+				bad = append(bad, p.FieldName(f)+" (Load at "+p.Pos(pos)+")")
+			}
+		}
+		sort.Strings(bad)
+		c.Check(rule, FuncKey(fn)+" decides on the value its atomic update returned", fn.Pos(), len(bad) == 0, FuncKey(fn)+" updates and then reloads "+strings.Join(bad, ", ")+": between the update and the Load another goroutine can update the counter too, and both act on the same final value (for a reference count: the buffer is returned to the pool twice and handed to two users)")
+	}
+	c.Stats[rule+".atomic_updates"] = n
+	c.Min(rule, 2)
 }
